@@ -372,11 +372,49 @@ class Origins:
             if a["o"] == "const":
                 return self._wrap(self._const(a["c"]), rem)
             p = a["place"]
-            return self.of_place(p["local"], _projkey(p["proj"]) + rem, depth + 1, stack)
+            inner = self.of_place(p["local"], _projkey(p["proj"]) + rem, depth + 1, stack)
+            if gen == "std::ops::Try::branch" and rest and rest[0][0] == "d" and rest[0][1] == "Continue":
+                # the consumer took the success payload of `x?`: alternatives of x that are failures (the `?` exits and Err/None
+                # values of a spliced helper) never get here
+                inner = _payload_of_success(_drop_failures(inner))
+            return inner
         args = ()
         if depth < 60:
             args = tuple(self.of_operand(a, depth + 1, stack) for a in t["args"])
         return self._wrap(("call", res or "<indirect>", bi, args), self._unwrap_rest(rest))
+
+
+def _drop_failures(t):
+    if isinstance(t, tuple) and t and t[0] == "phi":
+        keep = [a for a in t[1] if not _is_failure(a)]
+        if len(keep) == 1:
+            return keep[0]
+        if keep and len(keep) < len(t[1]):
+            return ("phi", tuple(keep))
+    return t
+
+
+def _payload_of_success(t):
+    """`Ok(x)?` / `Some(x)?` is x (the value was built by a spliced helper, so the wrapper is still visible)"""
+    if isinstance(t, tuple) and t and t[0] == "agg" and len(t) > 3 and t[2] in ("Ok", "Some") and len(t[3]) == 1:
+        return t[3][0]
+    if isinstance(t, tuple) and t and t[0] == "phi":
+        alts = tuple(_payload_of_success(a) for a in t[1])
+        if all(not (isinstance(a, tuple) and a and a[0] == "agg" and len(a) > 2 and a[2] in ("Ok", "Some")) for a in alts):
+            return ("phi", alts) if len(alts) > 1 else alts[0]
+    return t
+
+
+def _is_failure(a):
+    if not isinstance(a, tuple) or not a:
+        return False
+    if a[0] == "call" and str(a[1]).endswith("from_residual"):
+        return True
+    if a[0] == "agg" and len(a) > 2 and a[2] in ("Err", "None", "Break"):
+        return True
+    if a[0] == "unknown" and len(a) > 1 and a[1] == "infeasible":
+        return True
+    return False
 
 
 def _has_cycle(t):
